@@ -382,6 +382,40 @@ pub fn gen_c14(seed: u64, thorough: bool) {
         push_wave(&mut line, &without.run());
         println!("{}", line);
     }
+    gen_c14_mixed(&mut rng, if thorough { 600 } else { 40 });
+}
+
+/// mixed voicing: the post-filter acts on every frame, voiced or not (seeded change C14f: skipped on noise-excited frames)
+pub fn gen_c14_mixed(rng: &mut Rng, n: usize) {
+    for i in 0..n {
+        let nmcp = if i % 7 == 0 { 2 } else { rng.range(3, 25) + 1 };
+        let alpha = if i % 5 == 0 { 0.0 } else { rng.uniform(0.0, 0.6) };
+        let beta = if i % 6 == 5 { 0.0 } else { rng.uniform(0.05, 0.5) };
+        let rate = 16000usize;
+        let fperiod = rng.range(40, 200);
+        let nframes = rng.range(3, 6);
+        let nlpf = if i % 3 == 0 { 0 } else { 2 * rng.range(1, 4) + 1 };
+        let lpf: Vec<f64> = (0..nlpf).map(|_| rng.uniform(-0.3, 0.3)).collect();
+        let pattern = i % 4; // 0: all unvoiced, 1: U V U .., 2: V U U .., 3: random
+        let mut c = random_cepstrum(rng, nmcp, alpha, 2.0 / (1.0 + beta));
+        if nmcp > 2 && c[2].abs() < 0.05 { c[2] = 0.1; }
+        let f0 = rng.uniform(80.0, 300.0);
+        let frames: Vec<(f64, Vec<f64>, Vec<f64>)> = (0..nframes).map(|k| {
+            let voiced = match pattern { 0 => false, 1 => k % 2 == 1, 2 => k == 0, _ => rng.chance(0.4) };
+            // the spectrum drifts a little from frame to frame
+            let ck: Vec<f64> = c.iter().enumerate().map(|(m, x)| if m == 0 { *x } else { x * (1.0 + 0.05 * k as f64) }).collect();
+            (if voiced { f0.ln() } else { NODATA }, ck, lpf.clone())
+        }).collect();
+        let mk = |beta: f64| VocCase { nmcp, nlpf, stage: 0, log_gain: false, rate, alpha, beta, volume: 1.0, fperiod, frames: frames.clone() };
+        let with = mk(beta);
+        let without = mk(0.0);
+        let mut line = String::from("voc C14m");
+        with.push(&mut line);
+        push_wave(&mut line, &with.run());
+        push_s(&mut line, "aux");
+        push_wave(&mut line, &without.run());
+        println!("{}", line);
+    }
 }
 
 // ------------------------------------------------------------------------------------------ C16 (stage level)
